@@ -198,7 +198,7 @@ impl Prop for C16 {
              "multiple ports of a pin are merged per layer (documented); shape order within a layer is the LEF order".into()]
     }
     fn plan(&self, tier: Tier) -> Vec<GenSpec> {
-        vec![GenSpec::random("import", tier.pick(20_000, 600_000)), GenSpec::random("fractional", tier.pick(5_000, 100_000))]
+        vec![GenSpec::random("import", tier.pick(20_000, 2_000_000)), GenSpec::random("fractional", tier.pick(5_000, 400_000))]
     }
     fn run_case(&self, cx: &mut Cx) {
         match cx.gen.as_str() {
